@@ -68,9 +68,18 @@ Proof.
   destruct (gb_some p) as [v ->]. destruct (v =? 13); simpl; [lia|].
   unfold is_digit. destruct (Z.leb_spec 48 v); destruct (Z.leb_spec v 57); simpl; auto.
   destruct ((MAXSIZE / 10 <? cl) || (MAXSIZE - (v - 48) <? cl * 10)); simpl; [lia|].
-  destruct (Z.ltb_spec fill (p + 1)); simpl; [lia|].
+  destruct (Z.leb_spec fill (p + 1)); simpl; [lia|].
   specialize (IH (p + 1) (cl * 10 + (v - 48)) (st || (fill <=? p)) ltac:(lia) ltac:(lia) ltac:(lia)).
   destruct (fst (digits buf L pos fill f (p + 1) (cl * 10 + (v - 48)) (st || (fill <=? p)))); auto. lia.
+Qed.
+
+(* since the loop stops one byte before recv_buf_fill it never evaluates a slot at or past it *)
+Lemma digits_nostale : forall fuel p cl, 0 <= p < fill -> snd (digits buf L pos fill fuel p cl false) = false.
+Proof.
+  induction fuel as [|f IH]; intros p cl P; simpl; auto.
+  destruct (Z.leb_spec fill p); [lia|]. simpl.
+  destruct (gb buf L pos p) as [v|]; auto. destruct (v =? 13); auto. destruct (negb (is_digit v)); auto.
+  destruct (_ || _); auto. destruct (Z.leb_spec fill (p + 1)); auto. apply IH. lia.
 Qed.
 
 Hypothesis Fill : 0 <= fill.
@@ -129,6 +138,19 @@ Proof.
   destruct (digits buf L pos fill (fuel_of fill) p 0 false) as [[p' cl'|cl'| |] st]; simpl in D; auto; try lia.
   apply FIN; lia.
 Qed.
+Lemma parse_header_nostale cl : snd (parse_header buf L pos fill cl) = false.
+Proof.
+  unfold parse_header. cbv zeta.
+  assert (FIN : forall p c, snd (hdr_finish buf L pos fill p c false) = false).
+  { intros. unfold hdr_finish. destruct (skip_line _ _ _ _ _ _); auto. destruct (_ <=? _); auto. }
+  destruct (15 <? fill); [|apply FIN].
+  destruct (match_ci buf L pos 0 CONTENT_LENGTH) as [| | |[|]]; auto.
+  assert (Q15 : 0 <= 15) by lia.
+  pose proof (eat_ws_ok (fuel_of fill) 15 Q15 (fuel_enough _ Q15)) as E.
+  destruct (eat_ws buf L pos fill (fuel_of fill) 15) as [| | |p]; auto.
+  pose proof (digits_nostale (fuel_of fill) p 0 ltac:(lia)) as D.
+  destruct (digits buf L pos fill (fuel_of fill) p 0 false) as [[p' cl'|cl'| |] st]; simpl in D; subst st; auto.
+Qed.
 End RingFacts.
 
 Definition hinv (s : hst) : Prop :=
@@ -168,22 +190,20 @@ Qed.
 Lemma handover_ok s : hring s -> okp (http_handover s).
 Proof.
   intros ((P & F & PL & C & CB) & L0 & PL' & B). unfold http_handover. cbv zeta.
-  assert (FIN : forall c ret z, 0 <= c <= h_fill s ->
-     okp (flush_queue (h_queue s)
-            (if ret =? 1
-             then PUp [] z (PDone {| h_state := HT_CONNECTED; h_base := h_base s; h_queue := []; h_buf := h_buf s;
-                                    h_pos := (h_pos s + c) mod lenZ (h_buf s); h_fill := h_fill s - c; h_cl := h_cl s |} 1)
-             else PDone {| h_state := HT_CONNECTED; h_base := h_base s; h_queue := []; h_buf := h_buf s;
-                           h_pos := (h_pos s + c) mod lenZ (h_buf s); h_fill := h_fill s - c; h_cl := h_cl s |} 0))).
-  { intros c ret z Cc. apply okp_flush. pose proof (mod_range (h_pos s + c) _ L0).
-    assert (HI : hinv {| h_state := HT_CONNECTED; h_base := h_base s; h_queue := []; h_buf := h_buf s;
-                         h_pos := (h_pos s + c) mod lenZ (h_buf s); h_fill := h_fill s - c; h_cl := h_cl s |}).
-    { unfold hinv; simpl. repeat split; try lia; auto. }
-    destruct (ret =? 1); (split; [repeat constructor | repeat (apply lv_up || apply lv_done); intros _; exact HI]). }
+  assert (HI : forall c, 0 <= c <= h_fill s ->
+     hinv {| h_state := HT_CONNECTED; h_base := h_base s; h_queue := []; h_buf := h_buf s;
+             h_pos := (h_pos s + c) mod lenZ (h_buf s); h_fill := h_fill s - c; h_cl := h_cl s |}).
+  { intros c Cc. pose proof (mod_range (h_pos s + c) _ L0). unfold hinv; simpl. repeat split; try lia; auto. }
+  assert (FIN : forall c data, 0 <= c <= h_fill s ->
+     okp (mark_if (0 <? h_fill s - c) 3
+            (flush_queue (h_queue s)
+              (PUp data (-1) (PDone {| h_state := HT_CONNECTED; h_base := h_base s; h_queue := []; h_buf := h_buf s;
+                                       h_pos := (h_pos s + c) mod lenZ (h_buf s); h_fill := h_fill s - c; h_cl := h_cl s |} 1))))).
+  { intros c data Cc. apply okp_mark. apply okp_flush.
+    split; [repeat constructor | apply lv_up; apply lv_done; intros _; apply HI; auto]. }
   destruct (Z.ltb_spec 0 (h_fill s)).
-  2:{ assert (E0 : h_fill s = 0) by lia. specialize (FIN 0 0 0 ltac:(lia)).
-      rewrite Z.add_0_r, Z.sub_0_r in FIN. rewrite Z.mod_small in FIN by lia. exact FIN. }
-  apply (okp_mark true 3). unfold UPCAP.
+  2:{ apply okp_flush. apply okp_done. intros _. unfold hinv; simpl. repeat split; try lia; auto. }
+  unfold UPCAP.
   destruct (Z.ltb_spec (lenZ (h_buf s)) (h_pos s + h_fill s)).
   - set (len1 := Z.min (lenZ (h_buf s) - h_pos s) 70000).
     destruct (mreadn_ok (h_buf s) (h_pos s) len1 ltac:(lia) ltac:(unfold len1; lia) ltac:(unfold len1; lia)) as [d1 ->].
@@ -244,53 +264,65 @@ Proof.
   unfold ring_valid. rewrite andb_true_iff, orb_true_iff, Z.leb_le, Z.eqb_eq, Z.ltb_lt. tauto.
 Qed.
 
+Lemma lenZ_mreadn m off n d : mreadn m off n = Some d -> lenZ d = n.
+Proof.
+  unfold mreadn. rewrite fits_spec. destruct (Z.leb_spec 0 off); simpl; [|discriminate].
+  destruct (Z.leb_spec 0 n); simpl; [|discriminate]. destruct (Z.leb_spec (off + n) (lenZ m)); [|discriminate].
+  intros E; inversion E; subst. rewrite lenZ_takeZ, lenZ_dropZ. lia.
+Qed.
+
+(** growing: the new block has the new length, recv_buf_pos = 0 *)
+Lemma grow_ok G s : hinv s -> exists buf pos, http_grow G s = Some (buf, pos) /\
+  h_fill s < lenZ buf /\ 0 <= pos /\ pos < lenZ buf /\ lenZ (h_buf s) <= lenZ buf.
+Proof.
+  intros (P & F & PL & C & CB). unfold http_grow. cbv zeta.
+  destruct (Z.eqb_spec (h_fill s) (lenZ (h_buf s))) as [GR|NG].
+  - destruct (Z.ltb_spec 0 (h_fill s)).
+    + set (tail := Z.min (h_fill s) (lenZ (h_buf s) - h_pos s)).
+      destruct (mreadn_ok (h_buf s) (h_pos s) tail ltac:(lia) ltac:(unfold tail; lia) ltac:(unfold tail; lia)) as [d1 M1].
+      destruct (mreadn_ok (h_buf s) 0 (h_fill s - tail) ltac:(lia) ltac:(unfold tail; lia) ltac:(unfold tail; lia)) as [d2 M2].
+      rewrite M1, M2. eexists _, _. split; [reflexivity|].
+      rewrite !lenZ_app, lenZ_repZ, (lenZ_mreadn _ _ _ _ M1), (lenZ_mreadn _ _ _ _ M2). lia.
+    + eexists _, _. split; [reflexivity|]. rewrite lenZ_repZ. lia.
+  - eexists _, _. split; [reflexivity|]. lia.
+Qed.
+
 Lemma body_ok G s : hinv s -> okp (http_body G s).
 Proof.
-  intros (P & F & PL & C & CB). unfold http_body.
+  intros HI. pose proof HI as (P & F & PL & C & CB). unfold http_body.
   destruct (Z.eqb_spec (h_state s) HT_CONNECTED) as [SC|SC].
   { rewrite (CB SC). unfold passthrough.
-    assert (HI : hinv s) by (unfold hinv; auto).
     split.
     - apply sf_read. intros d _. destruct (lenZ d =? 0); repeat constructor.
     - apply lv_read. intros d. destruct (lenZ d =? 0); repeat (apply lv_up || apply lv_done); intros _; exact HI. }
-  cbv zeta.
-  set (L0 := lenZ (h_buf s)) in *.
-  set (grown := h_fill s =? L0).
-  set (L := if grown then Z.max (L0 * 2) 1024 else L0).
-  set (buf := if grown then h_buf s ++ repZ G (Z.to_nat (L - L0)) else h_buf s).
-  assert (LL : L0 <= L /\ 0 < L /\ h_fill s < L).
-  { unfold L, grown. destruct (Z.eqb_spec (h_fill s) L0); lia. }
-  assert (LB : lenZ buf = L).
-  { unfold buf, grown, L. destruct (Z.eqb_spec (h_fill s) L0); auto.
-    rewrite lenZ_app, lenZ_repZ. fold L0. lia. }
-  apply okp_mark.
-  assert (RV : ring_valid L (h_pos s) (h_fill s) = true) by (apply ring_valid_spec; lia).
+  destruct (grow_ok G s HI) as (buf & pos & GR & LL1 & LL2 & LL3 & LL4). rewrite GR. cbv zeta.
+  set (L := lenZ buf) in *.
+  assert (RV : ring_valid L pos (h_fill s) = true) by (apply ring_valid_spec; lia).
   rewrite RV. change (negb true) with false. cbv iota.
-  set (wrapped := L <? h_pos s + h_fill s).
-  set (off0 := if wrapped then (h_pos s + h_fill s) mod L else h_pos s + h_fill s).
-  set (size0 := if wrapped then L - h_fill s else L - (h_pos s + h_fill s)).
-  set (size1 := if wrapped then 0 else h_pos s).
+  set (wrapped := L <? pos + h_fill s).
+  set (off0 := if wrapped then (pos + h_fill s) mod L else pos + h_fill s).
+  set (size0 := if wrapped then L - h_fill s else L - (pos + h_fill s)).
+  set (size1 := if wrapped then 0 else pos).
   assert (GEO : 0 <= off0 /\ 0 <= size0 /\ off0 + size0 <= L /\ 0 <= size1 <= L /\ size0 + size1 = L - h_fill s).
-  { unfold off0, size0, size1, wrapped. destruct (Z.ltb_spec L (h_pos s + h_fill s)).
-    - assert (E : (h_pos s + h_fill s) mod L = h_pos s + h_fill s - L).
+  { unfold off0, size0, size1, wrapped. destruct (Z.ltb_spec L (pos + h_fill s)).
+    - assert (E : (pos + h_fill s) mod L = pos + h_fill s - L).
       { symmetry. apply Z.mod_unique with 1; lia. }
       rewrite E. lia.
     - lia. }
   set (s0 := {| h_state := h_state s; h_base := h_base s; h_queue := h_queue s; h_buf := buf;
-                h_pos := h_pos s; h_fill := h_fill s; h_cl := h_cl s |}).
-  assert (HI0 : hinv s0) by (unfold hinv, s0; simpl; rewrite LB; repeat split; try lia; auto).
+                h_pos := pos; h_fill := h_fill s; h_cl := h_cl s |}).
+  assert (HI0 : hinv s0) by (unfold hinv, s0; simpl; fold L; repeat split; try lia; auto).
   destruct (h_base s) eqn:B; [|apply okp_done; intros; lia].
-  (* what the continuation of the read does with the bytes obtained *)
   assert (K : forall d, (lenZ d <= size0 + size1 ->
       safe (if lenZ d =? 0 then PDone s0 0 else
             match mwrite buf off0 (takeZ size0 d) with
             | None => PFault
             | Some b1 => match mwrite b1 0 (dropZ size0 d) with
                          | None => PFault
-                         | Some b2 => if negb (ring_valid L (h_pos s) (h_fill s + lenZ d)) then PFault else
+                         | Some b2 => if negb (ring_valid L pos (h_fill s + lenZ d)) then PFault else
                              http_parse (Datatypes.S (Datatypes.S (Datatypes.S (Datatypes.S (Datatypes.S (Z.to_nat (h_fill s + lenZ d)))))))
                                {| h_state := h_state s; h_base := true; h_queue := h_queue s; h_buf := b2;
-                                  h_pos := h_pos s; h_fill := h_fill s + lenZ d; h_cl := h_cl s |}
+                                  h_pos := pos; h_fill := h_fill s + lenZ d; h_cl := h_cl s |}
                          end
             end)) /\
       leaves hP (if lenZ d =? 0 then PDone s0 0 else
@@ -298,10 +330,10 @@ Proof.
             | None => PFault
             | Some b1 => match mwrite b1 0 (dropZ size0 d) with
                          | None => PFault
-                         | Some b2 => if negb (ring_valid L (h_pos s) (h_fill s + lenZ d)) then PFault else
+                         | Some b2 => if negb (ring_valid L pos (h_fill s + lenZ d)) then PFault else
                              http_parse (Datatypes.S (Datatypes.S (Datatypes.S (Datatypes.S (Datatypes.S (Z.to_nat (h_fill s + lenZ d)))))))
                                {| h_state := h_state s; h_base := true; h_queue := h_queue s; h_buf := b2;
-                                  h_pos := h_pos s; h_fill := h_fill s + lenZ d; h_cl := h_cl s |}
+                                  h_pos := pos; h_fill := h_fill s + lenZ d; h_cl := h_cl s |}
                          end
             end)).
   { intros d. pose proof (lenZ_nonneg d) as Ld.
@@ -310,7 +342,7 @@ Proof.
     assert (PARSE : forall b2, lenZ b2 = L -> h_fill s + lenZ d <= L ->
       okp (http_parse (Datatypes.S (Datatypes.S (Datatypes.S (Datatypes.S (Datatypes.S (Z.to_nat (h_fill s + lenZ d)))))))
              {| h_state := h_state s; h_base := true; h_queue := h_queue s; h_buf := b2;
-                h_pos := h_pos s; h_fill := h_fill s + lenZ d; h_cl := h_cl s |})).
+                h_pos := pos; h_fill := h_fill s + lenZ d; h_cl := h_cl s |})).
     { intros b2 L2 FL. apply parse_ok.
       - unfold hring, hinv; simpl. rewrite L2. repeat split; try lia; auto.
       - cbn [h_fill h_state]. unfold rank.
@@ -320,18 +352,18 @@ Proof.
       assert (T0 : lenZ (takeZ size0 d) <= size0) by (rewrite lenZ_takeZ; lia).
       assert (T1 : lenZ (dropZ size0 d) <= size1) by (rewrite lenZ_dropZ; lia).
       pose proof (lenZ_nonneg (takeZ size0 d)). pose proof (lenZ_nonneg (dropZ size0 d)).
-      rewrite (mwrite_some buf off0) by lia.
+      rewrite (mwrite_some buf off0) by (fold L; lia).
       set (b1 := takeZ off0 buf ++ takeZ size0 d ++ dropZ (off0 + lenZ (takeZ size0 d)) buf).
-      assert (L1 : lenZ b1 = L) by (unfold b1; rewrite lenZ_splice; lia).
+      assert (L1 : lenZ b1 = L) by (unfold b1; rewrite lenZ_splice; fold L; lia).
       rewrite (mwrite_some b1 0) by lia.
-      assert (RV' : ring_valid L (h_pos s) (h_fill s + lenZ d) = true) by (apply ring_valid_spec; lia).
+      assert (RV' : ring_valid L pos (h_fill s + lenZ d) = true) by (apply ring_valid_spec; lia).
       rewrite RV'. change (negb true) with false. cbv iota. apply PARSE; [|lia].
       rewrite lenZ_splice; lia.
     - destruct (mwrite buf off0 (takeZ size0 d)) as [b1|] eqn:M1; [|constructor].
       destruct (mwrite b1 0 (dropZ size0 d)) as [b2|] eqn:M2; [|constructor].
-      destruct (ring_valid L (h_pos s) (h_fill s + lenZ d)) eqn:RV'; [|constructor]. change (negb true) with false. cbv iota.
+      destruct (ring_valid L pos (h_fill s + lenZ d)) eqn:RV'; [|constructor]. change (negb true) with false. cbv iota.
       apply ring_valid_spec in RV'. apply PARSE; [|lia].
-      rewrite (mwrite_len _ _ _ _ M2), (mwrite_len _ _ _ _ M1). exact LB. }
+      rewrite (mwrite_len _ _ _ _ M2), (mwrite_len _ _ _ _ M1). reflexivity. }
   split.
   - constructor. intros d Ld. apply (proj1 (K d)). lia.
   - constructor. intros d. apply (proj2 (K d)).
@@ -353,22 +385,16 @@ Proof.
   unfold http_body in E.
   destruct (Z.eqb_spec (h_state s) HT_CONNECTED) as [SC|SC].
   { rewrite (CB SC) in E. rewrite exec_passthrough in E by auto. inversion E; subst. rewrite lenZ_dropZ. unfold UPCAP. lia. }
-  cbv zeta in E.
-  set (L0 := lenZ (h_buf s)) in *.
-  set (L := if h_fill s =? L0 then Z.max (L0 * 2) 1024 else L0) in *.
-  assert (LL : L0 <= L /\ 0 < L /\ h_fill s < L).
-  { unfold L. destruct (Z.eqb_spec (h_fill s) L0); lia. }
-  unfold mark_if in E.
-  assert (RV : ring_valid L (h_pos s) (h_fill s) = true) by (apply ring_valid_spec; lia).
+  destruct (grow_ok G s I) as (buf & pos & GR & LL1 & LL2 & LL3 & LL4). rewrite GR in E. cbv zeta in E.
+  set (L := lenZ buf) in *.
+  assert (RV : ring_valid L pos (h_fill s) = true) by (apply ring_valid_spec; lia).
   rewrite RV in E. change (negb true) with false in E. cbv iota in E.
-  assert (REQ : 1 <= (if L <? h_pos s + h_fill s then L - h_fill s else L - (h_pos s + h_fill s)) +
-                     (if L <? h_pos s + h_fill s then 0 else h_pos s)).
-  { destruct (L <? h_pos s + h_fill s); lia. }
+  assert (REQ : 1 <= (if L <? pos + h_fill s then L - h_fill s else L - (pos + h_fill s)) +
+                     (if L <? pos + h_fill s then 0 else pos)).
+  { destruct (L <? pos + h_fill s); lia. }
   destruct (h_base s).
-  2:{ destruct ((h_fill s =? L0) && (L0 <? h_pos s + h_fill s)); simpl in E; inversion E; subst; lia. }
-  destruct ((h_fill s =? L0) && (L0 <? h_pos s + h_fill s)).
-  - destruct (exec_mark_inv _ _ _ _ _ _ E) as [e' E']. eapply read_progress; [exact REQ | exact N | exact E'].
-  - eapply read_progress; [exact REQ | exact N | exact E].
+  2:{ simpl in E; inversion E; subst; lia. }
+  eapply read_progress; [exact REQ | exact N | exact E].
 Qed.
 
 Lemma hinv_init : hinv http_init.
